@@ -171,6 +171,21 @@ pub fn run(args: &Args) {
         let cs: Vec<Value> = std::fs::read_to_string(cases).unwrap().lines().filter(|l| !l.trim().is_empty()).map(|l| serde_json::from_str(l).unwrap()).collect();
         run_cases(&mut t, "gen", &cs, true);
     }
+    // (a2) the digest decision table of C03 (every combination of recorded digests present / absent / wrongly typed /
+    // empty / wrong), materialised on a carrier package: verification must return on each of them
+    if let Some(cases) = args.get("digest-cases") {
+        let mut cs = vec![];
+        for line in std::fs::read_to_string(cases).unwrap().lines() {
+            if line.trim().is_empty() { continue; }
+            let c: Value = serde_json::from_str(line).unwrap();
+            let bytes = crate::c03::materialise(&c["d"], c["pos"].as_str().unwrap_or("first"));
+            cs.push(hexcase(&bytes, format!("digest table row {}", c["d"])));
+            if let Some(rb) = crate::c03::reorder_index(&bytes, true) {
+                cs.push(hexcase(&rb, format!("digest table row {} (index reordered)", c["d"])));
+            }
+        }
+        run_cases(&mut t, "digest-table", &cs, false);
+    }
     // base packages: the two smallest assets and a built one
     let mut bases: Vec<(String, Vec<u8>)> = vec![];
     for p in asset_paths() {
